@@ -159,7 +159,7 @@ theorem stopped_callee_caller_may_wait_while_supervisor_keeps_state :
       (run ops).calls[p]? = some c ∧ c.res = none ∧ c.deadline = none ∧ c.loc ≠ .detached ∧
       (run ops).actors[c.callee]? = some x ∧ x.alive = false :=
   ⟨[.spawnSup, .spawnl 0, .call 0 none, .handle 0 .keep, .stop 0 .drop, .suphandle 0 true], 0,
-   ⟨0, none, .event 0, none, none, none, 0⟩, ⟨false, false, [], [], some 0⟩, by decide⟩
+   ⟨0, none, .event 0, none, none, none, 0, 0⟩, ⟨false, false, [], [], some 0⟩, by decide⟩
 
 /-- (a kept state keeps its ports alive — and only a LIVE supervisor can keep it) A port
 inside a termination event is held, queued or stashed, by a supervisor that is alive; and
@@ -395,7 +395,7 @@ theorem forward_only_on_transition (cs : List Call) (A : List Actor)
 /-- cross-wiring IS expressible: a caller whose receiver belongs to another call's port would get
 that call's reply (`caller_reads_own_port` shows no reachable state contains such a caller) -/
 def crossWiredExample : List Call :=
-  [⟨0, none, .replied 7, none, none, none, 1⟩, ⟨0, none, .replied 9, none, none, none, 0⟩]
+  [⟨0, none, .replied 7, none, none, none, 1, 0⟩, ⟨0, none, .replied 9, none, none, none, 0, 0⟩]
 example : (crossWiredExample.map (resolveVia 0 crossWiredExample)).map (·.res) =
     [some (.success 9), some (.success 7)] := by decide
 
